@@ -833,7 +833,7 @@ func init() {
 	Register(&Check{
 		ID:    "C11",
 		Level: "exploration",
-		Rule: "abstract queries are enumerated as a product of clause menus (11 select items and ordered pairs, table, where conditions over every operator x operand kind, " +
+		Rule: "output files named like the optional word of their clause (append: quoted, bare, upper case, with/without append mode) x 3 keyword cases x 2 clause orders x 2 base queries; abstract queries are enumerated as a product of clause menus (11 select items and ordered pairs, table, where conditions over every operator x operand kind, " +
 			"group, order/rorder, set incl. nested functions, interval, limit, outfile [append], logformat); each is rendered to text and parsed by mapr.NewQuery; " +
 			"product A = all clause combinations in canonical surface, B = every single where condition and pairs under 9 surfaces, C = a reduced abstract set under every " +
 			"clause order (canonical, reversed, rotations) x keyword case x separator x optional 'by' x 'and' style x white-space style (blank, newline, tab, double blank, CRLF, indented newline); the parsed fields and a one-line evaluation of where/set " +
